@@ -159,12 +159,15 @@ func (r *Run) ctx() *subCtx {
 func (r *Run) pushScope() {
 	r.flushDefs()
 	r.sol.Send("(push)")
+	r.pcHashStack = append(r.pcHashStack, r.pcHash)
 	r.printer.marks = append(r.printer.marks, len(r.printer.order))
 }
 
 func (r *Run) popScopeP() {
 	r.printer.out.Reset()
 	r.sol.Send("(pop)")
+	r.pcHash = r.pcHashStack[len(r.pcHashStack)-1]
+	r.pcHashStack = r.pcHashStack[:len(r.pcHashStack)-1]
 	m := r.printer.marks[len(r.printer.marks)-1]
 	r.printer.marks = r.printer.marks[:len(r.printer.marks)-1]
 	for _, id := range r.printer.order[m:] {
